@@ -179,7 +179,16 @@ def wrapPtrs : Ty → Codec → Codec
   | .named _ t, c => wrapPtrs t c
   | _, c => c
 
-def isStructBase (t : Ty) : Bool := match baseTy t with | .struct _ => true | _ => false
+/-- go: proto.baseTypeOf followed by the `encodedByMethods` test of proto.embeddedStruct (commits 0de7c43, e71f28a): pointers
+and defined types are looked through, a type encoded through its methods (NAME "RawMessage", see `isMessage`) is not -/
+def embBase : Ty → Ty
+  | .ptr t => embBase t
+  | .named "RawMessage" t => .named "RawMessage" t
+  | .named _ t => embBase t
+  | t => t
+-- go: proto.embeddedStruct — a struct, or pointer(s) to one, encoded by structCodecOf (the one codec that leaves the length
+-- prefix to its caller); Message / custom types of struct kind write their prefix themselves
+def isStructBase (t : Ty) : Bool := match embBase t with | .struct _ => true | _ => false
 def isMessage : Ty → Bool
   | .named "RawMessage" _ => true
   | _ => false
